@@ -47,6 +47,31 @@ def custom_tree_correspondence(rep, binp, seed, n):
                           {'seed': seed, 'idx': idx, 'kind': 'history', 'cmd': 'vh c17 cases %d %d | grep "KDIFF %d "' % (seed, idx + 1, idx)})
 
 
+def coq_closure(rel, seen=None):
+    """Transitive `From TV Require Import` closure of a .v file (paths relative to coq/)."""
+    seen = set() if seen is None else seen
+    if rel in seen or not os.path.exists(os.path.join(COQ, rel)):
+        return seen
+    seen.add(rel)
+    src = strip_comments(open(os.path.join(COQ, rel)).read())
+    for m in re.finditer(r'From TV Require (?:Import|Export)([^.]*(?:\.[A-Za-z][^.]*)*)\.\s', src):
+        for mod in m.group(1).split():
+            coq_closure(mod.replace('.', '/') + '.v', seen)
+    return seen
+
+
+def drop_unrelated_translator_problems(rep):
+    """The C17 development and the engine runner import nothing from coq/Gen (no translated part), so a generator of another
+    property refusing a rewritten source form says nothing about C17; it is recorded, not reported."""
+    deps = coq_closure('Props/C17.v') | coq_closure('Model/EngineRun.v')
+    if any(d.startswith('Gen/') for d in deps):
+        return
+    unrelated = [b for b in rep.broken if b['kind'] == 'translator']
+    if unrelated:
+        rep.cov['translator_problems_outside_C17'] = unrelated
+        rep.broken = [b for b in rep.broken if b['kind'] != 'translator']
+
+
 def run(rep, tier, seed, replay=None):
     res, changed = proof_stage(rep, 'C17', extra_trusted=[
         'Model/Engine.v (TaffyView dispatch) and Model/EngineDoc.v (documented dispatch) are hand-written; tied by the dirty-flag correspondences '
@@ -55,6 +80,7 @@ def run(rep, tier, seed, replay=None):
         'the hidden-mode line that the examples do not show (see notes/C17.md: without that line the pattern is wrong below display:none)',
         'the layout algorithms are the same code on both sides (no hypothesis on them); exact-key memo = cfg(taffy_verif) hook',
         'cache-free evaluation only on trees of <= 8 nodes and depth <= 3, under a query limit (limit hits are counted and skipped)'])
+    drop_unrelated_translator_problems(rep)
     rc, out, binp, dt = build_harness('release')
     if rc != 0:
         rep.add_broken('build', 'harness', out[-1500:])
@@ -63,6 +89,12 @@ def run(rep, tier, seed, replay=None):
     if changed:
         nk = 3000
     engine_correspondence(rep, binp, seed, nk)
+    # WF / H1 are premises of the C01/C15 theorems, not of the C17 ones (which hold for every algorithm and every tree):
+    # a trace that falsifies them is recorded here, and reported by ./check C01
+    hyp = [b for b in rep.broken if b['kind'] == 'interface-hypothesis']
+    if hyp:
+        rep.cov['interface_hypotheses_falsified_not_used_by_C17'] = hyp
+        rep.broken = [b for b in rep.broken if b['kind'] != 'interface-hypothesis']
     k_distinct = rep.cov.get('distinct_nontrivial', 0)
     custom_tree_correspondence(rep, binp, seed, nk)
     # ---- search
